@@ -30,7 +30,8 @@ type C08Op struct {
 	// different data whose revision number ties with / exceeds / is below the current ones (A picks which),
 	// 12 reconcile during which the first ControllerRevision write meets trouble: A%3 = 0 a concurrent writer
 	// touched the revision (a real conflict on update, retried inside the controller), 1 the write is applied
-	// but reported as timed out, 2 server error
+	// but reported as timed out, 2 server error, 13 the set gets a deletion timestamp (held by a finalizer): it still
+	// keeps its revision records
 	K int `json:"k"`
 	A int `json:"a,omitempty"`
 	B int `json:"b,omitempty"`
@@ -44,7 +45,7 @@ type C08Case struct {
 
 func (c C08Case) Summary() interface{} {
 	var ops []string
-	names := []string{"reconcile", "template", "replicas", "slotAdd", "slotsClear", "pauseOn", "pauseOff", "metaEdit", "limit", "plantCollision", "kubelet", "plantNumbered", "reconcileRevisionWriteFault"}
+	names := []string{"reconcile", "template", "replicas", "slotAdd", "slotsClear", "pauseOn", "pauseOff", "metaEdit", "limit", "plantCollision", "kubelet", "plantNumbered", "reconcileRevisionWriteFault", "markDeleting"}
 	for _, o := range c.Ops {
 		ops = append(ops, fmt.Sprintf("%s(%d,%d)", names[o.K], o.A, o.B))
 	}
@@ -101,7 +102,7 @@ func genC08(rt *rapid.T) C08Case {
 	}
 	n := rapid.IntRange(1, 20).Draw(rt, "nops")
 	for i := 0; i < n; i++ {
-		o := C08Op{K: rapid.SampledFrom([]int{0, 0, 0, 0, 0, 1, 1, 1, 2, 3, 4, 5, 6, 7, 8, 9, 9, 10, 11, 11, 12, 12}).Draw(rt, "op")}
+		o := C08Op{K: rapid.SampledFrom([]int{0, 0, 0, 0, 0, 1, 1, 1, 2, 3, 4, 5, 6, 7, 8, 9, 9, 10, 11, 11, 12, 12, 13}).Draw(rt, "op")}
 		o.A = rapid.IntRange(0, 8).Draw(rt, "a")
 		o.B = rapid.IntRange(0, 1).Draw(rt, "b")
 		c.Ops = append(c.Ops, o)
@@ -195,6 +196,10 @@ func runC08(rep Rep, c C08Case) {
 			l := []int32{10, 10, 3, 2}[o.A%4]
 			edit(func(x *asv1.StatefulSet) { x.Spec.RevisionHistoryLimit = &l })
 			nonTemplateEditSince = true
+		case 13:
+			if cl.MarkSetDeleting(NS, "web") {
+				rep.Label("set-deleting")
+			}
 		case 10:
 			for _, p := range cl.PodsIn(NS) {
 				if p.DeletionTimestamp != nil {
